@@ -182,7 +182,10 @@ func c20Dial(c *Ctx) {
 			}
 			return
 		}
-		shortened := timeout && (p.Chose("ctx-has-deadline") == 0 || p.Chose("timeout-deadline-earlier") == 1)
+		// a path that never asked whether the context has a deadline of its own, or which of the
+		// two is earlier, stands for every answer - also for the one in which Timeout is the
+		// earlier bound (the background context has no deadline at all)
+		shortened := timeout && (p.Chose("ctx-has-deadline") != 1 || p.Chose("timeout-deadline-earlier") != 0)
 		ctxName := "global:caller-context"
 		if background {
 			ctxName = "global:background-context"
